@@ -50,6 +50,7 @@ type interpreter struct {
 	curFrame           *frame
 	initDirect         bool
 	mutexes            map[*value]*mutexState
+	pools              map[*value][]value // sync.Pool contents of this path (LIFO)
 	atomics            map[*value]*atomicClock
 	unsafePkgs         map[*ssa.Package]bool
 	elemOf             map[*value]elemRef
